@@ -283,6 +283,15 @@ def suite_reuse(rng, tier):
                 for how in ("ok", "ext", "frag"):
                     seqs.append((("max", mx), ("send", LBL_A6, "ok")) + (("send", LBL_A6, "ok"),) * k + (("send", LBL_RU, how),) * nru
                                 + (("send", LBL_A6, "ok"),) * (mx + 2))
+    # the bound changed in the middle of a run: to a value BELOW the number of substitutions already made, to
+    # unlimited and back, re-enabled without a disable in between; then a long tail against the u8 counter
+    for n1 in (3, 5, 0, 200):
+        for k in (2, 3, 4, 6):
+            for n2 in (1, 2):
+                for via in (("max", n2), ("enable",), ("max", 0)):
+                    mid = [via] if via[0] == "max" and via[1] == n2 else [via, ("max", n2)]
+                    seqs.append(tuple([("max", n1)] + [("send", LBL_A6, "ok")] * (k + 1) + mid + [("send", LBL_A6, "ok")] * (n2 + 4)))
+    seqs.append(tuple([("max", 200)] + [("send", LBL_A6, "ok")] * 6 + [("max", 0), ("send", LBL_A6, "ok"), ("max", 3)] + [("send", LBL_A6, "ok")] * 300))
     # long runs against the counter
     for mx in (1, 2, 3, 254, 255):
         seqs.append((("max", mx),) + (("send", LBL_A6, "ok"),) * (mx + 3 if mx < 10 else 260))
@@ -1198,6 +1207,37 @@ def suite_frames(rng, tier):
             else:
                 s.walk("+".join("p:%d" % r for r in regs) + "+z:4")
             out.append(s)
+    # padding and frame-level errors with MORE than a maximum GSE packet (4097 bytes) left in the frame: the
+    # padding status, and every error that drops the frame, consume ALL that is left
+    for npad in (2, 4095, 4096, 4097, 4098, 4099, 5000, 7238, 65535, 70000):
+        for mode in ("single", "walk"):
+            s = Session("bigpad%d-%s" % (npad, mode))
+            s.strict = False
+            s.twin = "bigpad%d" % npad
+            s.enc("new")
+            s.dec_new(2, 64, None)
+            for _ in range(3):
+                s.prov(64, 0)
+            i = s.encap(bs_gen(npad, 30), 1, 0x0800, LBL_A6, bs_zero(64))
+            r = s.ops[i]["reg"]
+            if mode == "single":
+                s.decap_if("p:%d" % r)
+                s.decap("z:%d" % npad)
+            else:
+                s.walk("p:%d+z:%d" % (r, npad))
+            out.append(s)
+        # frame-level errors followed by a long tail: an intermediate packet without frag id, an end packet
+        # shorter than id + CRC; the peek on the same buffers
+        s = Session("bigerr%d" % npad)
+        s.strict = False
+        s.dec_new(2, 64, None)
+        s.prov(64, 0)
+        s.decap("h:3000+g:%d:%d" % (npad, npad))
+        s.decap("h:700301aabb+g:%d:%d" % (npad + 1, npad))
+        s.decap("h:c00a0800616263646566beef+z:%d" % npad)
+        s.peek("z:%d" % npad)
+        s.peek("h:c00a0800616263646566beef+z:%d" % npad)
+        out.append(s)
     # outcome independent of following bytes
     for n in range(60 if tier == "quick" else 1000):
         s = Session("tailindep%d" % n)
